@@ -3,7 +3,7 @@
     expression cases: [lift_all]. *)
 From Coq Require Import ZArith List Bool Lia.
 From V.C03 Require Import PyAst PySem Cfg CfgSem Builder Frag Lift ProofsBase ProofsExpr ProofsBranch
-  ProofsStmtA ProofsStmtB ProofsSim ProofsLiftA ProofsLiftB ProofsLiftC ProofsLiftD.
+  ProofsStmtA ProofsStmtB ProofsSim ProofsLiftA ProofsLiftB ProofsLiftC ProofsLiftD ProofsLiftChain.
 Import ListNotations.
 
 Section LiftE.
@@ -70,16 +70,11 @@ Proof.
   rewrite Nat.eqb_refl. reflexivity.
 Qed.
 
-Lemma bspec_chain : forall l op m rest, bspec oracle (ECmp l (CMore op m rest)).
-Proof.
-  intros l op m rest bb t f g n s' B LS.
-  exact (bspec_of_frag oracle (ECmp l (CMore op m rest)) LS bb t f g n s' B LS).
-Qed.
-
 Theorem lift_all :
   (forall e, xspec oracle e /\ bspec oracle e) /\
   (forall es, xlspec oracle es) /\
-  (forall t, match t with CLast _ r => xspec oracle r /\ bspec oracle r | CMore _ _ _ => True end).
+  (forall t, match t with CLast _ r => xspec oracle r /\ bspec oracle r | CMore _ _ _ => True end /\
+             ctspec2 oracle t /\ (forall op m r', t = CMore op m r' -> ctspec2 oracle r')).
 Proof.
   apply expr_mutind.
   - intros c. split; [apply xspec_const|].
@@ -90,10 +85,12 @@ Proof.
   - intros op a (Xa&_) b (Xb&_). assert (XB: xspec oracle (EBin op a b)) by (apply xspec_bin; auto).
     split; auto. apply bspec_leaf; [reflexivity | exact XB].
   - intros l (Xl&_) rest IH. destruct rest as [op r | op m rest].
-    + destruct IH as (Xr&_). assert (XC: xspec oracle (ECmp l (CLast op r))) by (apply xspec_cmp1; auto).
+    + destruct IH as ((Xr&_)&_). assert (XC: xspec oracle (ECmp l (CLast op r))) by (apply xspec_cmp1; auto).
       split; auto. apply bspec_leaf; [reflexivity | exact XC].
-    + split; [|apply bspec_chain].
-      apply xspec_lift; [reflexivity | apply bspec_chain |]. intros H. split; [reflexivity | exact H].
+    + destruct IH as (_&_&CT). pose proof (CT op m rest eq_refl) as CR.
+      assert (BC: bspec oracle (ECmp l (CMore op m rest))) by (apply bspec_chain2; auto).
+      split; [|exact BC].
+      apply xspec_lift; [reflexivity | exact BC |]. intros H. split; [reflexivity | exact H].
   - intros op a (_&Ba) b (_&Bb). assert (BB: bspec oracle (EBool op a b)) by (apply bspec_bool; auto).
     split; auto. apply xspec_lift; [reflexivity | exact BB |].
     intros H. simpl in H. apply andb_prop in H. destruct H as [H Lb]. apply andb_prop in H. destruct H as [H La].
@@ -107,7 +104,8 @@ Proof.
     split; auto. apply bspec_leaf; [reflexivity | exact XT].
   - apply xlspec_nil.
   - intros e (X&_) es XL. apply xlspec_cons; auto.
-  - intros op e H. exact H.
-  - intros. exact I.
+  - intros op e (X&B). split; [split; auto|]. split; [apply ctspec2_last; exact X|]. intros; discriminate.
+  - intros op e _ rest (_&CT&_). split; [exact I|]. split; [apply ctspec2_more; exact CT|].
+    intros op0 m0 r' Eq. inversion Eq; subst. exact CT.
 Qed.
 End LiftE.
